@@ -42,7 +42,8 @@ def expand_for(lines):
 def parse_spec(path):
     cfg = {'record_names': {}, 'extern_c': [], 'trivial_externals': [], 'roots': [], 'prelude': [],
            'midlude': [], 'postlude': [], 'includes': [], 'defines': [], 'stub_functions': [],
-           'params_as_locals': [], 'typedefs': {}, 'pure_hoist': [], 'cbmc_flags': [], 'skip_records': [], 'external_records': [], 'ext_overload_by_type': []}
+           'params_as_locals': [], 'typedefs': {}, 'pure_hoist': [], 'cbmc_flags': [], 'skip_records': [], 'external_records': [], 'ext_overload_by_type': [],
+           'rec_twin': [], 'ext_overload_by_ret': []}
     contracts = {}
     harnesses = []
     cur = None          # current function contract dict
@@ -122,7 +123,8 @@ def parse_spec(path):
                 a, _, b = rest.partition(' = ')
                 cfg['typedefs'][a.strip()] = b.strip()
             elif key in ('@roots', '@extern_c', '@prelude', '@midlude', '@postlude', '@includes', '@defines',
-                         '@stub_functions', '@external_records', '@params_as_locals', '@pure_hoist', '@cbmc_flags', '@skip_records', '@ext_overload_by_type'):
+                         '@stub_functions', '@external_records', '@params_as_locals', '@pure_hoist', '@cbmc_flags', '@skip_records', '@ext_overload_by_type',
+                         '@rec_twin', '@ext_overload_by_ret'):
                 cfg[key[1:]] += rest.split()
             elif key == '@trivial_external':
                 cfg['trivial_externals'].append(rest)
@@ -156,9 +158,11 @@ def parse_spec(path):
             m = {'invariant': '__CPROVER_loop_invariant(%s)', 'assigns': '__CPROVER_assigns(%s)',
                  'decreases': '__CPROVER_decreases(%s)'}[key]
             cur_loop.append(m % rest)
-        elif key in ('requires', 'ensures', 'assigns', 'frees'):
+        elif key in ('requires', 'ensures', 'assigns', 'frees', 'requires_local'):
+            # requires_local: memory shape of the object the function is enforced on; not part of the contract that stands
+            # in for recursive calls (@rec_twin), where that shape is the hereditary data-structure invariant
             cur_loop = None
-            cur[key].append(rest)
+            cur.setdefault(key, []).append(rest)
         else:
             raise SpecError('unknown clause %s' % s)
     return cfg, contracts, harnesses
